@@ -36,6 +36,9 @@ def cases(ctx):
         if rng.random() < 0.15:      # names whose concatenations collide: 'q1'+'0' = 'q'+'10'
             d1 = gen.random_dfa(rng, 5, Sig, gen.NAME_SCHEMES[5])
             d2 = gen.random_dfa(rng, 5, Sig, gen.NAME_SCHEMES[6])
+        elif rng.random() < 0.12:    # names whose '_'-joined pairs collide: (s, t_u) and (s_t, u)
+            d1 = gen.random_dfa(rng, 3, Sig, lambda j: ['s', 's_t', 's_t_u'][j])
+            d2 = gen.random_dfa(rng, 3, Sig, lambda j: ['u', 't_u', 'x'][j])
         else:
             d1 = gen.random_dfa(rng, 5, Sig)
             d2 = gen.random_dfa(rng, 5, Sig)
